@@ -45,7 +45,6 @@ type c12Norm struct {
 	regroup  bool // binary sub-expression without ParenExpr is re-attached by operator precedence (printed flat)
 }
 
-var c12AllNorm = c12Norm{true, true, true, true, true}
 
 // the harness's own precedence table (influxql.Token.Precedence() is code under test)
 func c12Prec(op Token) int {
@@ -442,28 +441,39 @@ func c12Misplaced(e Expr) map[string]bool {
 }
 
 // c12Explain returns the kinds of the known defects that together account for planned != shipped,
-// or nil if they do not.
+// or nil if no combination of the defect models does.
 func c12Explain(canonN func(c12Norm) (planned, shipped string), plannedExprs []Expr) []string {
-	p, s := canonN(c12AllNorm)
-	if p != s {
+	mk := func(bits int) c12Norm {
+		return c12Norm{bits&1 != 0, bits&2 != 0, bits&4 != 0, bits&8 != 0, bits&16 != 0}
+	}
+	equal := func(bits int) bool { p, s := canonN(mk(bits)); return p == s }
+	// largest set of models first (31 = all); a model that does not apply to this tree changes nothing
+	found := -1
+	for _, bits := range c12SubsetsBysize {
+		if equal(bits) {
+			found = bits
+			break
+		}
+	}
+	if found < 0 {
 		return nil
 	}
-	strictP, strictS := canonN(c12Norm{})
+	// a model is part of the explanation iff the trees differ without it
 	var kinds []string
-	single := func(n c12Norm) bool { q, r := canonN(n); return q != strictP || r != strictS }
-	if single(c12Norm{intFloat: true}) {
+	need := func(bit int) bool { return found&bit != 0 && !equal(found&^bit) }
+	if need(1) {
 		kinds = append(kinds, "integral_float_reparsed_as_integer")
 	}
-	if single(c12Norm{nsDur: true}) {
+	if need(2) {
 		kinds = append(kinds, "sub_microsecond_duration_truncated")
 	}
-	if single(c12Norm{reSlash: true}) {
+	if need(4) {
 		kinds = append(kinds, "regex_escaped_slash_escaped_again")
 	}
-	if single(c12Norm{infIdent: true}) {
+	if need(8) {
 		kinds = append(kinds, "identifier_inf_nan_reparsed_as_number")
 	}
-	if single(c12Norm{regroup: true}) {
+	if need(16) {
 		ks := map[string]bool{}
 		for _, e := range plannedExprs {
 			for k := range c12Misplaced(e) {
@@ -482,6 +492,23 @@ func c12Explain(canonN func(c12Norm) (planned, shipped string), plannedExprs []E
 	}
 	return kinds
 }
+
+// non-empty subsets of the five defect models, larger sets first
+var c12SubsetsBysize = func() []int {
+	var out []int
+	for size := 5; size >= 1; size-- {
+		for bits := 31; bits >= 1; bits-- {
+			n := 0
+			for b := bits; b != 0; b &= b - 1 {
+				n++
+			}
+			if n == size {
+				out = append(out, bits)
+			}
+		}
+	}
+	return out
+}()
 
 func c12Has(e Expr, pred func(Node) bool) bool {
 	found := false
@@ -515,12 +542,6 @@ func c12ExplainFailure(planned []Expr, errText string, handReparser bool) string
 		}
 		return false
 	}
-	if handReparser && has(func(n Node) bool {
-		b, ok := n.(*BinaryExpr)
-		return ok && (b.Op == BITWISE_AND || b.Op == BITWISE_OR || b.Op == BITWISE_XOR)
-	}) {
-		return "bitwise_operator_unknown_to_store_parser"
-	}
 	if strings.Contains(errText, "unable to parse integer") && has(func(n Node) bool {
 		l, ok := n.(*NumberLiteral)
 		return ok && l.Val == math.Trunc(l.Val) && l.Val < -9223372036854775808.0
@@ -541,6 +562,12 @@ func c12ExplainFailure(planned []Expr, errText string, handReparser bool) string
 		if _, ok := c12LeftmostLeaf(planned[0]).(*RegexLiteral); ok {
 			return "leading_regex_not_reparsable"
 		}
+	}
+	if handReparser && has(func(n Node) bool {
+		b, ok := n.(*BinaryExpr)
+		return ok && (b.Op == BITWISE_AND || b.Op == BITWISE_OR || b.Op == BITWISE_XOR)
+	}) {
+		return "bitwise_operator_unknown_to_store_parser"
 	}
 	if !handReparser && has(func(n Node) bool {
 		b, ok := n.(*BinaryExpr)
